@@ -1,9 +1,10 @@
 (* Extraction of the executable model for the correspondence check.
    ExtrOcamlBasic only: nat, positive, N stay Coq's own inductive types. *)
 From Coq Require Import ExtrOcamlBasic.
-From Memchr Require Import Params Base.Res Base.ListX Sub.IsEqual Sub.Pair Mem.Wrappers.
+From Memchr Require Import Params Base.Res Base.ListX Sub.IsEqual Sub.Pair Mem.Wrappers Mem.Iter.
 
 Extraction "extracted.ml"
   is_equal is_prefix is_suffix is_equal_raw
   pair_with_ranker pair_with_indices default_rank
-  backend_find backend_rfind backend_count x86_choice.
+  backend_find backend_rfind backend_count x86_choice
+  iter_new iter_run.
